@@ -341,3 +341,26 @@ func Obj(kv ...any) *D {
 	}
 	return d
 }
+
+// TypedSlice describes a slice whose static element type is the Go type of
+// its first element (so []int, []float64, []string, []bool, []decimal.Decimal
+// get their own tags and everything else is "other").
+func TypedSlice(xs ...*D) *D {
+	ety := "other"
+	if len(xs) > 0 {
+		x := xs[0]
+		switch {
+		case x.Tag == "i" && x.Kind == "int" && !x.Named:
+			ety = "int"
+		case x.Tag == "f" && !x.Is32 && !x.Named:
+			ety = "f64"
+		case x.Tag == "d":
+			ety = "dec"
+		case x.Tag == "s" && !x.Named:
+			ety = "str"
+		case x.Tag == "b" && !x.Named:
+			ety = "bool"
+		}
+	}
+	return &D{Tag: "sl", Ety: ety, Xs: xs}
+}
